@@ -839,3 +839,15 @@ Lemma wit_stop_at_close_loses_later_messages :
 Proof.
   cbv zeta. split; [repeat constructor; vm_compute; reflexivity|]. vm_compute. repeat split; reflexivity.
 Qed.
+
+(* ------------------------------------------------------------------ whoever awaits (round 11)
+   which callers await — or have stopped awaiting: a caller that gives up removes its entry — changes who is handed a
+   message, never where the next one starts *)
+Lemma expected_log_headers : forall maxbuf cfg fs st env i,
+  map d_hdr (expected_log maxbuf cfg st env i fs) = map frame_header fs.
+Proof. induction fs as [|f fs IH]; intros; cbn [expected_log map]; [reflexivity|]. now rewrite IH. Qed.
+
+Lemma serve_headers_whoever_awaits : forall maxbuf cfg fs st env, Forall frame_wf fs ->
+  map d_hdr (r_log (serve maxbuf cfg st env (concat (map frame_bytes fs)))) = map frame_header fs
+  /\ r_rest (serve maxbuf cfg st env (concat (map frame_bytes fs))) = [].
+Proof. intros. rewrite serve_whole_stream by assumption. simpl. split; [apply expected_log_headers|reflexivity]. Qed.
